@@ -19,6 +19,14 @@ RULE = (
     "installed as is; after every exit path the owner's __dict__ entry IS the original object. "
     "distinct = cell; non-trivial = every cell with a callable replacement (4 conventions compared)."
 )
+RULE += (
+    " Further targets: a method / classmethod / staticmethod patched on a subclass that only INHERITS it, and a "
+    "method patched on one instance (restored = the name is absent from the owner's own __dict__ again, the "
+    "defining class untouched). Further replacements: what new_callable produces when that is a plain "
+    "function, a bound method, a callable object. A fifth convention: yield .asynq() from a task that is "
+    "itself driven by asyncio. Composition 'nested_stopall': two patches of one target started with start(), "
+    "ended by ONE stopall()."
+)
 ASSUMPTIONS = ["unittest.mock itself is trusted"]
 UNIT_TIMEOUT = {"quick": 200, "thorough": 600}
 
